@@ -5,17 +5,18 @@ open Pyunicorn Pyunicorn.Proto Pyunicorn.Nsi
 
 def matAt {α} (m : List (List α)) (d : α) (i j : Nat) : α := (m.getD i []).getD j d
 
-def mkGr (n adj w la0 g0 g1 dist : String) : Gr :=
+def mkGr (n adj w la0 g0 g1 dist sig : String) : Gr :=
   let A := boolMat adj
   let W := rats w
   let L0 := ratMat la0
+  let L1 := ratMat sig
   let G0 := bools g0
   let G1 := bools g1
   let D := intMat dist
   { n := n.toNat!
     adj := fun i j => matAt A false i j
     w := fun k => W.getD k 0
-    la := fun _ i j => matAt L0 0 i j
+    la := fun a i j => if a = 0 then matAt L0 0 i j else matAt L1 0 i j
     grp := fun g i => if g = 0 then G0.getD i false else G1.getD i false
     dist := fun i j => let d := matAt D (-1) i j; if d < 0 then none else some d.toNat }
 
@@ -35,13 +36,13 @@ def showGr (G : Gr) : String :=
 
 def answer (toks : List String) : String :=
   match toks with
-  | ["eval", n, adj, w, la0, g0, g1, dist] => evalAll (mkGr n adj w la0 g0 g1 dist)
-  | ["relabel", perm, n, adj, w, la0, g0, g1, dist] =>
+  | ["eval", n, adj, w, la0, g0, g1, dist, sig] => evalAll (mkGr n adj w la0 g0 g1 dist sig)
+  | ["relabel", perm, n, adj, w, la0, g0, g1, dist, sig] =>
       let p := nats perm
-      showGr (Equiv.relabel (mkGr n adj w la0 g0 g1 dist) (fun a => p.getD a a))
-  | ["evalrelabel", perm, n, adj, w, la0, g0, g1, dist] =>
+      showGr (Equiv.relabel (mkGr n adj w la0 g0 g1 dist sig) (fun a => p.getD a a))
+  | ["evalrelabel", perm, n, adj, w, la0, g0, g1, dist, sig] =>
       let p := nats perm
-      evalAll (Equiv.relabel (mkGr n adj w la0 g0 g1 dist) (fun a => p.getD a a))
+      evalAll (Equiv.relabel (mkGr n adj w la0 g0 g1 dist sig) (fun a => p.getD a a))
   | _ => "bad-request"
 
 def main : IO Unit := runDriver answer
